@@ -28,6 +28,7 @@ from .io import (
     NonSeekableSink,
     NonSeekableSource,
     RecordingSubscriber,
+    partial_subscriber,
     SeekableSink,
     SeekableSource,
     StageExecutorFactory,
@@ -143,8 +144,13 @@ def prepare_xfer(obs, x):
     size = t.get('size', 0)
     x.data = payload(spec.get('seed', 0) * 1000 + x.idx, size)
     subs = []
-    for si, b in enumerate(t.get('subs', [{}])):
-        subs.append(RecordingSubscriber(w, x.label, f's{si}', b))
+    # 'subs': None -> the call is made with subscribers=None; a subscriber with 'only': [...] is a plain object that offers
+    # just those callbacks (subscribers are duck-typed: whatever on_* methods exist are called)
+    for si, b in enumerate(t['subs'] or [] if 'subs' in t else [{}]):
+        if b.get('only'):
+            subs.append(partial_subscriber(b['only'])(w, x.label, f's{si}', b))
+        else:
+            subs.append(RecordingSubscriber(w, x.label, f's{si}', b))
     x.subs = subs
     w.s3.labels[(BUCKET, x.key)] = x.label
     if x.kind == 'upload':
@@ -249,7 +255,13 @@ def run(spec, hang_ok=False):
     for h in spec.get('_hooks', ()):  # in-process only (not JSON): extra point hooks
         d.hooks.append(h)
 
-    mgr = TransferManager(client, cfg, osutil=osu, executor_cls=exf)
+    if spec.get('executor') == 'nonthreaded':
+        # everything runs inline in the submitting thread (what boto3's use_threads=False selects)
+        from s3transfer.futures import NonThreadedExecutor
+
+        mgr = TransferManager(client, cfg, osutil=osu, executor_cls=NonThreadedExecutor)
+    else:
+        mgr = TransferManager(client, cfg, osutil=osu, executor_cls=exf)
     obs.manager = mgr
     obs.gate = None
     gate = (spec.get('plan') or {}).get('gate')
@@ -356,16 +368,17 @@ def run(spec, hang_ok=False):
 def submit_one(mgr, x):
     t = x.spec
     extra = dict(t.get('extra_args') or {})
+    subs = None if ('subs' in t and t['subs'] is None) else x.subs
     try:
         if x.kind == 'upload':
-            x.future = mgr.upload(x.src, BUCKET, x.key, extra_args=extra or None, subscribers=x.subs)
+            x.future = mgr.upload(x.src, BUCKET, x.key, extra_args=extra or None, subscribers=subs)
         elif x.kind == 'download':
-            x.future = mgr.download(BUCKET, x.key, x.dest, extra_args=extra or None, subscribers=x.subs)
+            x.future = mgr.download(BUCKET, x.key, x.dest, extra_args=extra or None, subscribers=subs)
         elif x.kind == 'copy':
             x.future = mgr.copy({'Bucket': SRC_BUCKET, 'Key': 'src-' + x.key}, BUCKET, x.key,
-                                extra_args=extra or None, subscribers=x.subs)
+                                extra_args=extra or None, subscribers=subs)
         elif x.kind == 'delete':
-            x.future = mgr.delete(BUCKET, x.key, extra_args=extra or None, subscribers=x.subs)
+            x.future = mgr.delete(BUCKET, x.key, extra_args=extra or None, subscribers=subs)
     except BaseException as e:  # noqa
         x.submit_exc = e
 
